@@ -513,8 +513,64 @@ def r13_poison_dropped(run, F):
     run.ob("R13-POISON-DROPPED", "scan", arms >= 25, "src/alpha/typer.rs", "%d arms of the typer ignore the payload of an Err(..) (31 counted); none may drop an owned error and build a clean node" % arms)
 
 
+def r14_location_guarded(run, F):
+    """Expression::location() is unreachable!() for a poisoned expression (a recorded finding of R1).  In the analyzers, where
+    an operand may have been poisoned by the typer or by the analyzer itself, a call `e.location()` on an expression whose
+    type is examined in the same function (`match e.value_type()`) must sit inside an arm of that examination that has
+    established a type (`Some(Ok(..))`), never before or beside it.  The two index checks (function_calls, constness) are
+    siblings and must agree."""
+    n = 0
+
+    def with_anc(root):
+        st = [(root, ())]
+        while st:
+            x, anc = st.pop()
+            if isinstance(x, dict):
+                yield x, anc
+                for v in x.values():
+                    if isinstance(v, (dict, list)):
+                        st.append((v, anc + (x,)))
+            elif isinstance(x, list):
+                for y in x:
+                    st.append((y, anc))
+    for p, b in sorted(F.lib.bodies.items()):
+        if "hir" not in b or not F.rel(b["file"]).startswith("src/alpha/analyzer/"):
+            continue
+        typed = {}      # lid -> match nodes over <lid>.value_type()
+        for m in hirq.matches(b["hir"]):
+            for x in walk(m["scrut"]):
+                if x.get("k") == "MethodCall" and x.get("name") == "value_type" and "Expression" in (hirq.callee(x) or ""):
+                    r = hirq.unwrap_trivial(x["recv"])
+                    if r.get("k") == "Path" and r.get("rk") == "Local":
+                        typed.setdefault(r.get("res"), []).append(m)
+        for node, anc in with_anc(b["hir"]):
+            if node.get("k") == "MethodCall" and (hirq.callee(node) or "") == "alpha::common::Expression::location":
+                r = hirq.unwrap_trivial(node["recv"])
+                name = r.get("res") if r.get("k") == "Path" else None
+                if name not in typed:
+                    continue
+                n += 1
+                guarded = False
+                for m in typed[name]:
+                    if not any(a is m for a in anc):
+                        continue
+                    for arm in m["arms"]:
+                        if any(x is node for x in walk(arm["body"])):
+                            pk = [hirq.pat_key(q) for alt in hirq.pat_alts(arm["pat"]) for q in walk(alt) if q.get("k") in ("TupleStruct", "Struct", "Path")]
+                            guarded = any(k.endswith("::Ok") or k == "Ok" for k in pk)
+                run.ob("R14-LOCATION-GUARDED", "%s|%s.location()" % (p.split(" as ")[0].strip("<").split("::")[-1] + "@" + F.rel(b["file"]).split("/")[-1], "operand"),
+                       guarded, F.where(b, node),
+                       "location() of an expression whose type this function examines must be called inside the arm that found a type "
+                       "(Some(Ok(..))): on a poisoned operand it is unreachable!()")
+    run.floor("R14-LOCATION-GUARDED", 3, "guarded location() calls in the analyzers (function_calls, constness)")
+
+
 def check(run):
     F = run.facts("B")
+    # diagnostics planted in the later parts of a statement only surface if the resolver merges the errors of all parts (shared with C06.R7)
+    from props import c06 as _c06
+    _c06.r7_errors_merged(run, F)
+    r14_location_guarded(run, F)
     r12_linear_traversal(run, F)
     r13_poison_dropped(run, F)
     # builtins are expanded after typing and never re-checked: a literal whose type differs from the announced one aborts
